@@ -12,6 +12,7 @@
   Only property theorems live here; helper lemmas are in Proofs/Digits.lean.
 -/
 import BumpverVerif.Model.LexId
+import BumpverVerif.Model.V2Version
 import BumpverVerif.Proofs.Digits
 namespace BV
 
@@ -200,6 +201,15 @@ theorem C17_chain_lex (i j : Nat) (b x y : Str) (hb : isDigitStr b = true)
       simp only [bumpN, Option.some.injEq] at hx
       subst hx; exact Or.inl hi
     | succ k => exact Or.inr (hxg (by omega))
+
+/-- BUILD is carried and rendered as a STRING: the regenerated renderer table formats the BUILD
+    part with `str(v)` (not through `int`), so every BUILD value — leading zeros included — is
+    rendered verbatim; only BLD strips zeros.  (A table edit that routes BUILD through `int`
+    breaks this obligation.) -/
+theorem C17_render_verbatim (b : Str) :
+    lookup "BUILD".toList Gen.partFormats = some .str ∧ fmtValue .str (.str b) = b ∧
+    lookup "BUILD".toList Gen.partFields = some "bid".toList := by
+  refine ⟨by decide, rfl, by decide⟩
 
 /-! non-vacuity: concrete instances meeting the hypotheses, incl. a 999→11000-style jump -/
 example : bumpBid "0999".toList = some "22000".toList := by decide
